@@ -65,7 +65,23 @@ def proof_stage(rep, prop, theorems, cone_desc):
                                                      'JMeq.', 'ClassicalEpsilon.', 'PropExtensionality.',
                                                      'Closed under')) for a in rep.cov['print_assumptions']),
                        out[-1500:])
-    rep.cov['checker_cmd'] = 'make -C coq props/%s.vo   (full .vo build via coq_makefile, coqc under timeout); coqc Print Assumptions' % prop
+    if built and rep.tier == 'thorough' and not os.environ.get('VERIF_NO_COQCHK'):
+        # independent re-check of the compiled property file and everything it depends on
+        rc, out = vlib.sh('timeout 2400 coqchk -silent -o -R %s GS GS.props.%s 2>&1 | tail -40' % (vlib.COQ, prop), timeout=2500)
+        axs = []
+        sec = None
+        for l in out.splitlines():
+            t = l.strip()
+            if t.startswith('* '):
+                sec = t
+            elif t and sec and sec.startswith('* Axioms') and not t.startswith('='):
+                axs.append(t)
+        bad_sections = [l for l in out.splitlines() if ('type-in-type' in l or 'unsafe' in l or 'positivity is assumed' in l) and '<none>' not in l]
+        rep.cov['coqchk'] = {'rc': rc, 'axioms': axs[:40], 'tail': out[-600:]}
+        rep.obligation('coqchk -o GS.props.%s (independent checker): no type-in-type, no unsafe fixpoints, no assumed positivity' % prop,
+                       'CONTEXT SUMMARY' in out and not bad_sections, out[-1500:])
+    rep.cov['checker_cmd'] = ('make -C coq props/%s.vo   (full .vo build via coq_makefile, coqc under timeout); coqc Print Assumptions; '
+                              'thorough tier: coqchk -silent -o GS.props.%s' % (prop, prop))
     return built and not bad, info
 
 
